@@ -279,3 +279,23 @@ Qed.
 
 End Matrix.
 End Round.
+
+(* statement pinned in Props/C04.v *)
+Lemma band_mul_backward_ex (u : R) (Hu : 0 <= u <= 1) (fadd fsub fmul fdiv : R -> R -> R)
+  (Hadd : forall x y, exists d, Rabs d <= u /\ fadd x y = (x + y) * (1 + d))
+  (Hmul : forall x y, exists d, Rabs d <= u /\ fmul x y = x * y * (1 + d))
+  (B : banded (ARnd fadd fsub fmul fdiv)) (v : list R) :
+  @wfB (ARnd fadd fsub fmul fdiv) B -> length v = bn B ->
+  exists B' : banded AR,
+    bn B' = bn B /\ bm1 B' = bm1 B /\ bm2 B' = bm2 B /\ @wfB AR B' /\
+    (forall i s, (i < bn B)%nat -> (s < bm1 B + bm2 B + 1)%nat ->
+       Rabs (@cslot AR B' i s - @cslot (ARnd fadd fsub fmul fdiv) B i s)
+       <= ((1 + u) ^ (bm1 B + bm2 B + 2) - 1) * Rabs (@cslot (ARnd fadd fsub fmul fdiv) B i s)) /\
+    @band_mul (ARnd fadd fsub fmul fdiv) B v = @band_mul AR B' v /\
+    @band_mul AR B' v = Ok (@dense_mulv AR B' v).
+Proof.
+  intros Hwf Hv.
+  destruct (band_mul_backward_lemma u Hu fadd fsub fmul fdiv Hadd Hmul B v Hwf Hv) as (E0 & E1 & E2 & Hwf' & Hb & Hm & Hm').
+  exists (Bpert fadd fsub fmul fdiv B v). repeat split; auto; try apply Hwf'.
+  now rewrite Hm, Hm'.
+Qed.
